@@ -192,6 +192,34 @@ func c17CreateIn(c *c17Case, seed int64, r *core.Rec, stale map[string][]byte) (
 	case "unrelated":
 		cwd = unrelated
 	}
+	// decoys: a working directory other than the set directory holds look-alikes of the inputs (alternately a directory
+	// and a regular file of other content under the same base name) and of the set files; none of them is part of this
+	// Create, and none may influence or be touched by it
+	decoys := map[string][]byte{}
+	if cwd != setDir {
+		for i, a := range abs {
+			b := filepath.Join(cwd, filepath.Base(a))
+			if i%2 == 0 {
+				os.MkdirAll(b, 0755)
+			} else {
+				decoys[b] = []byte(fmt.Sprintf("decoy %d", i))
+			}
+		}
+		for _, n := range []string{"s.par", "s.par2", "s.p01", "s.vol0+1.par2"} {
+			decoys[filepath.Join(cwd, n)] = []byte("decoy set file " + n)
+		}
+		for p, b := range decoys {
+			ioutil.WriteFile(p, b, 0644)
+		}
+	}
+	defer func() {
+		for p, b := range decoys {
+			if got, e := ioutil.ReadFile(p); e != nil || !bytes.Equal(got, b) {
+				r.Violatef("create-touched-the-working-directory", "%+v: %s (not part of this Create) was changed or removed", *c, p)
+				return
+			}
+		}
+	}()
 	ext := ".par2"
 	if c.Fmt == "p1" {
 		ext = ".par"
